@@ -18,6 +18,12 @@ further call; send_response == false yields Response::None, never finish();
 AA 2/0x04, TC 2/0x02, RD 2/0x01, RA 3/0x80, RCODE 3/0x0f); masks are pairwise disjoint per octet and leave the three Z
 bits (octet 3, 0x70) uncovered; set_ra has no caller in server::*; Writer::new zero-fills the header;
 (d) add_question receives the Question that read_question returned and nothing else; it is the only question ever added.
+(e) the ID octets (0..2) of a response are written only by set_id (write_u16 at constant offset 0 has no other caller;
+the only other constant-offset header writes are the four counters in finish_with_mac), so whatever handle_message
+passed to set_id is what goes out -- also for TSIG-bearing responses;
+(f) the question is complete before rr_start marks its end: rr_start is assigned only by the constructors (12) and by
+add_question (the cursor), and no octet is pushed after that assignment -- clear_rrs rewinds to rr_start, so the
+truncation / SERVFAIL / slip paths keep the echoed question intact.
 Not decided: octet-for-octet equality of the echoed question for every QNAME encoding (value-level).
 """
 ASSUMPTIONS = ['every CFG path is assumed feasible']
@@ -165,3 +171,66 @@ def check(R, F):
     qs = [st for blk in hw.blocks if not blk['cleanup'] for st in blk['stmts'] if st['k'] == 'assign' and st['rv']['k'] == 'agg' and st['rv']['def'].endswith('Option::Some') and st['rv']['ops'] and 'read_question' in paths.show_operand(hw, st['rv']['ops'][0])]
     R.require(len(qs) == 1, 'question-echo', HMWC + '|context-question', hw.where(), 'Context.question is the question just read', 'Context.question is not Some(question read)')
     R.floor('question-echo', 2)
+
+    # ---- (e) who writes the ID octets
+    want = {(W + 'set_id', 0), (W + 'finish_with_mac', 4), (W + 'finish_with_mac', 6), (W + 'finish_with_mac', 8), (W + 'finish_with_mac', 10)}
+    got = set()
+    nonconst = []
+    for fn in F.fns.values():
+        if fn.crate != 'quandary' or '::tests::' in fn.gpath:
+            continue
+        for b, t in calls_in(fn, W + 'write_u16'):
+            v = const_int(t['args'][1])
+            if v is None:
+                nonconst.append(fn.gpath)
+            else:
+                got.add((fn.gpath, v))
+    R.require(got == want, 'id-writers', 'message::writer|write_u16-header-offsets', '', 'header words are written at constant offsets only by %s' % sorted(got),
+              'write_u16 at constant header offsets is called by %s, expected only set_id@0 and finish_with_mac@4/6/8/10 (extra: %s): the ID set by handle_message could be overwritten' % (sorted(got), sorted(got - want)))
+    R.require(sorted(set(nonconst)) == [W + 'add_rr'], 'id-writers', 'message::writer|write_u16-variable-offsets', '', 'the only variable-offset write_u16 is the RDLENGTH slot in add_rr', 'write_u16 at a variable offset in %s' % sorted(set(nonconst)))
+    # direct indexed stores into octets[0] / octets[1]
+    low = []
+    for gp, fn in F.fns.items():
+        if not gp.startswith('message::writer::') or '::tests::' in gp:
+            continue
+        for octet in setter_masks(fn):
+            if octet in (0, 1):
+                low.append(gp)
+    R.require(not low, 'id-writers', 'message::writer|no-direct-id-stores', '', 'no function stores into octets[0] or octets[1] directly', 'direct stores into the ID octets in %s' % low)
+    sid = F.fn(W + 'set_id')
+    c = calls_in(sid, W + 'write_u16')
+    R.require(len(c) == 1 and paths.show_operand(sid, c[0][1]['args'][2]) == 'arg2', 'id-writers', W + 'set_id|writes-its-argument', sid.where(), 'set_id writes its argument', 'set_id does not write its argument at offset 0')
+    R.floor('id-writers', 4)
+
+    # ---- (f) rr_start marks the end of the complete question
+    wr = effects.writers_of(F, 'message::writer::Writer', 'rr_start', kinds=('assign', 'calldest', 'mutborrow')).get('rr_start', {})
+    wr = {g: v for g, v in wr.items() if '::tests::' not in g}
+    ctors = {W + 'new', W + 'try_from_template_impl'}
+    aq_fns = {g for g in wr if g.startswith(W + 'add_question')}
+    R.require(set(wr) - ctors == aq_fns and aq_fns, 'rr-start', 'message::writer::Writer.rr_start|writers', '', 'rr_start is assigned only by the constructors and add_question: %s' % sorted(wr),
+              'rr_start is written by %s, expected only the constructors and add_question' % sorted(wr))
+    pushers = ('try_push', 'write_unhinted_name', 'write_hinted_name', 'write_uncompressed_name', 'write_compressed_unhinted_name', 'try_push_u8', 'try_push_u16', 'try_push_u32')
+    def is_push(t):
+        return t['k'] == 'call' and callee_name(t).startswith(W) and callee_name(t).split('::')[-1] in pushers
+    aqf = F.fn(W + 'add_question')
+    clos = [c for p_, c in __import__('rules.writer_common', fromlist=['x']).rollback_closures(F) if p_.gpath == aqf.gpath]
+    for g in sorted(aq_fns):
+        fn = F.fns[g]
+        for (cty, fld), sites in effects.direct_writes(fn).items():
+            if fld != 'rr_start':
+                continue
+            for b, k in sites:
+                st = [x for x in fn.blocks[b]['stmts'] if x['k'] == 'assign' and x['lhs']['p'] and x['lhs']['p'][-1].get('n') == 'rr_start']
+                val = paths.show_operand(fn, st[0]['rv']['op']) if st else '?'
+                later = fn.find_path(b, lambda x: x != b and not fn.blocks[x]['cleanup'] and is_push(fn.blocks[x]['term']))
+                after_closure = True
+                if fn.gpath == aqf.gpath:
+                    # the write in the parent must come after the closure that pushes the question ran
+                    rb = calls_in(fn, W + 'with_rollback')
+                    after_closure = bool(rb) and all(fn.dominates(cb, b) for cb, ct in rb)
+                else:
+                    # a write inside the closure: nothing may be pushed after it, here or after the closure returns
+                    later = later or aqf.find_path(calls_in(aqf, W + 'with_rollback')[0][0], lambda x: not aqf.blocks[x]['cleanup'] and is_push(aqf.blocks[x]['term']) )
+                R.require(val.endswith('.cursor') and later is None and after_closure, 'rr-start', g + '|after-last-push', fn.where(b), 'rr_start = cursor after the whole question was pushed',
+                          'rr_start is set to %s at a point after which the question is still being written (%s): clear_rrs would rewind into the question' % (val, paths.fmt_path(fn, later) if later and fn is not None and later and all(x < len(fn.blocks) for x in later) else 'push reachable afterwards' if later else 'not after the question closure'))
+    R.floor('rr-start', 2)
